@@ -38,9 +38,13 @@ type c16Session struct {
 	Silent   bool // instead of closing, the peer goes silent at that message (client built with the inactivity check)
 	Leader   int  // >0: leader-only session with two servers; leadership moves at step boundary Leader (and back Cut2 steps later if Cut2>=0); Away bit 0 = endpoint order
 	Late     bool // a transaction is committed while the first restarted monitor is parked between its reply and the cache
+	Outage   bool // the peer stays unreachable for several times the client's reconnect timeout (a short one) before it lets the client back
 }
 
 func (s c16Session) String() string {
+	if s.Outage {
+		return fmt.Sprintf("method=%s monitors=%d away=%03b cut=%d; the peer refuses connections for 3 reconnect timeouts (120 ms each) before it accepts again", s.Method, s.Monitors, s.Away, s.Cut)
+	}
 	if s.Late {
 		return fmt.Sprintf("method=%s monitors=%d away=%03b cut=conn%d/msg%d, a transaction committed while the restarted monitor is parked after its reply, second cut at msg %d of the next connection (-1 = none)", s.Method, s.Monitors, s.Away, s.CutConn, s.Cut, s.Cut2)
 	}
@@ -271,6 +275,9 @@ func c16Run(r *ev.Run, s c16Session, record bool) (msgs []e2e.Msg) {
 	if s.Silent {
 		opt = client.WithInactivityCheck(80*time.Millisecond, 2*time.Second, backoff.NewConstantBackOff(time.Millisecond))
 	}
+	if s.Outage {
+		opt = client.WithReconnect(c16OutageTimeout, backoff.NewConstantBackOff(2*time.Millisecond))
+	}
 	c := e2e.NewClient(dbs, px.Sock, opt)
 	defer c.Close()
 	pz := e2e.NewPauser(c)
@@ -362,6 +369,11 @@ func c16Run(r *ev.Run, s c16Session, record bool) (msgs []e2e.Msg) {
 						}
 						pz.Release("monitor:reply")
 					} else {
+						if s.Outage {
+							// every attempt made meanwhile is refused; the attempts made after the outage get the full timeout again
+							time.Sleep(3 * c16OutageTimeout)
+							r.Add("outages_longer_than_the_reconnect_timeout", 1)
+						}
 						px.SetAccept(true)
 					}
 				}
@@ -658,6 +670,12 @@ func runC16(r *ev.Run) {
 					}
 				}
 			}
+			// an outage longer than the client's reconnect timeout
+			for k := 0; k < n; k++ {
+				if r.Tier == "thorough" || k%4 == (nm+len(m))%4 {
+					sessions = append(sessions, c16Session{Method: m, Monitors: nm, Away: 7, Cut: k, Cut2: -1, Outage: true})
+				}
+			}
 			// silent peer: from message k on nothing reaches the client any more
 			for k := 0; k < n; k++ {
 				if r.Tier == "thorough" || k%2 == nm%2 {
@@ -716,3 +734,6 @@ func runC16(r *ev.Run) {
 	})
 	r.Set("distinct_nontrivial", r.DistinctCount("nontrivial"))
 }
+
+// c16OutageTimeout: reconnect timeout of the clients of the outage sessions
+const c16OutageTimeout = 120 * time.Millisecond
